@@ -22,6 +22,54 @@ EXPLANATION = (
 ASSUMPTIONS = ["CLONE_CHILD_CLEARTID semantics", "System V x86_64 callee-saved registers r12-r15, rbx, rbp"]
 
 
+def points_into(e, prov, is_root, depth=0, seen=None):
+    """Does pointer/reference expression e point into the block whose address is_root() recognises?  Values LOADED from the
+    block (ptr.read(), *p, (*p).field used as a value) are copies, not pointers into it; `&(*p).f`, p.cast(), p.add(..),
+    methods handed such a reference (as_ref, accessors returning Option<&T>) stay inside the block."""
+    seen = seen if seen is not None else set()
+    if not isinstance(e, tuple) or not e or depth > 40:
+        return False
+    k = e[0]
+    if k == "call":
+        if is_root(e):
+            return True
+        nm = e[1] or ""
+        if nm.endswith(("::read", "::read_volatile", "::read_unaligned", "ptr::read", "::load", "mem::replace", "mem::take", "Clone::clone", "::get_value")):
+            return False
+        return any(points_into(a, prov, is_root, depth + 1, seen) for a in e[2])
+    if k in ("ref", "addr"):
+        return place_in(e[2], prov, is_root, depth + 1, seen)
+    if k == "cast":
+        return points_into(e[2], prov, is_root, depth + 1, seen)
+    if k in ("field", "downcast"):
+        # a component of an aggregate VALUE (e.g. the payload of an Option<&T> returned by a call): follow the aggregate
+        return points_into(e[1], prov, is_root, depth + 1, seen)
+    if k == "deref":
+        return False   # a loaded value
+    if k == "var":
+        key = (e[1], e[3])
+        if key in seen:
+            return False
+        seen.add(key)
+        return any(points_into(x, prov, is_root, depth + 1, seen) for x in prov.expand(e))
+    if k == "phi":
+        return any(points_into(x, prov, is_root, depth + 1, seen) for x in e[1:] if isinstance(x, tuple))
+    if k == "agg":
+        return any(points_into(x, prov, is_root, depth + 1, seen) for x in e[3])
+    return False
+
+
+def place_in(pl, prov, is_root, depth, seen):
+    """the place expression pl (operand of a & / &raw) lies inside the block"""
+    if not isinstance(pl, tuple) or depth > 40:
+        return False
+    if pl[0] == "deref":
+        return points_into(pl[1], prov, is_root, depth + 1, seen)
+    if pl[0] in ("field", "downcast", "index"):
+        return place_in(pl[1], prov, is_root, depth + 1, seen)
+    return False
+
+
 def run(ck, progs, tier):
     for cfgname, prog in progs.items():
         ck.set_config(prog)
@@ -106,6 +154,20 @@ def run_one(ck, prog):
         ok = bool(ds) and all(any(c.cfg.dominates(tb, d) and tb != d and v == 0 for tb, v in tid) for d in ds)
         ck.ob("C06.2", f"clear-tid-reset-before-free|{p}", ok, fn=p, detail="on the thread side SET_TID_ADDRESS(0) must precede freeing the block: otherwise the kernel writes 0 into (and futex-wakes) freed memory when the thread exits")
 
+    # the handle side may free the join block only after the kernel's exit write (CLONE_CHILD_CLEARTID clears the futex word inside
+    # the block and futex-wakes it when the thread is gone): every free in join / Drop is dominated by wait_for_exit on the same block
+    for p2 in (T.JOIN, T.DROP):
+        fn2 = prog.fns.get(p2)
+        if not ck.anchor("C06.2", p2, fn2):
+            continue
+        c = prog.ctx(fn2)
+        ds = T.call_blocks(c, dealloc)
+        ws = T.call_blocks_suffix(c, "spawn::wait_for_exit")
+        ok = bool(ds) and all(any(c.cfg.dominates(w, d) and canon(c.args(w)[0]) == canon(strip_casts(c.args(d)[0])).replace("&", "") or
+                                  (c.cfg.dominates(w, d) and mentions(c.args(d)[0], c.prov, lambda z: z[0] == "field" and z[2] == "tsm") and mentions(c.args(w)[0], c.prov, lambda z: z[0] == "field" and z[2] == "tsm")) for w in ws) for d in ds)
+        ck.ob("C06.2", f"handle-frees-only-after-thread-exit|{p2.split('::')[-1] if 'Drop' not in p2 else 'Drop'}", ok, fn=p2, site=c.site(ds[0]) if ds else None,
+              detail="the handle frees the join block without first waiting for the thread's exit word: the kernel still clears (and futex-wakes) that word when the thread exits, i.e. writes into freed memory")
+
     # ---- C06.3 TLS freed once by its thread ------------------------------------------------------------------------------------
     tls_frees = {}
     for p, fn in prog.fns.items():
@@ -135,6 +197,44 @@ def run_one(ck, prog):
         ck.ob("C06.3", "panic-thread-branch-frees-tls", len(fs) == 1 and bool(asm_blocks) and all(c.cfg.dominates(fs[0], a) for a in asm_blocks), fn=T.PANIC, detail="the panic handler's thread branch must free the TLS block before unmapping the stack")
         exits = T.call_blocks_suffix(c, "process::exit::exit") + T.call_blocks_suffix(c, "process::exit")
         ck.ob("C06.3", "main-thread-branch-exits", bool(exits) and all(fs[0] not in c.cfg.reachable_from(0, avoid=set()) or not c.cfg.dominates(fs[0], e) for e in exits), fn=T.PANIC, detail="the main thread (no stack info) must not free a TLS block; it exits the process")
+
+    # no use of the TLS block after it has been freed: after the free, nothing may be read or written through a pointer/reference
+    # obtained from get_tls_ptr() (the block's contents must have been copied out before)
+    for p2, fs in sorted(tls_frees.items()):
+        fn2 = prog.fns[p2]
+        c = prog.ctx(fn2)
+        is_tls = lambda z: z[0] == "call" and (z[1] or "").endswith("get_tls_ptr")  # noqa: E731
+        late = []
+        for f0 in fs:
+            nxt = c.cfg.term(f0).get("t")
+            after = c.cfg.reachable_from(nxt) if nxt is not None else set()
+            for b in fn2["blocks"]:
+                if b["id"] not in after or b.get("cleanup"):
+                    continue
+                places = []
+                for i, st in enumerate(b["stmts"]):
+                    if st["k"] != "assign":
+                        continue
+                    if st["dst"].get("p") and st["dst"]["p"][0]["k"] == "deref":
+                        places.append((st["dst"], (b["id"], i), st.get("sp")))
+                    rv = st["rv"]
+                    ops = [rv.get("a"), rv.get("b")] + list(rv.get("ops") or [])
+                    if rv["k"] in ("ref", "addr") and rv.get("p"):
+                        ops.append({"k": "copy", "p": rv["p"]})
+                    for o in ops:
+                        if isinstance(o, dict) and o.get("k") in ("copy", "move") and o["p"].get("p") and o["p"]["p"][0]["k"] == "deref":
+                            places.append((o["p"], (b["id"], i), st.get("sp")))
+                t = b["term"]
+                for o in (t.get("args") or []):
+                    if isinstance(o, dict) and o.get("k") in ("copy", "move") and o["p"].get("p") and o["p"]["p"][0]["k"] == "deref":
+                        places.append((o["p"], (b["id"], len(b["stmts"])), t.get("sp")))
+                for pl, at, sp in places:
+                    base = c.prov.operand({"k": "copy", "p": {"l": pl["l"]}}, at)
+                    if points_into(base, c.prov, is_tls):
+                        late.append((b["id"], c.prov.names.get(pl["l"], f"_{pl['l']}"), sp))
+        from ..engine.cfg import span_str
+        ck.ob("C06.3", f"no-tls-access-after-free|{p2.split('::')[-1]}", not late, fn=p2, site=span_str(late[0][2]) if late else None,
+              detail=f"the TLS block is read through `{late[0][1] if late else ''}` after it was freed ({len(late)} accesses): once another thread's allocation reuses the block, this thread unmaps that thread's stack / frees its join state")
 
     # ---- C06.4 stack unmapped last ------------------------------------------------------------------------------------------------
     if ck.config != "X":
